@@ -21,7 +21,7 @@ INF = float('inf')
 
 def gen_cases(tier, seed):
     q = tier == 'quick'
-    n = 4000 if q else 400000
+    n = 12000 if q else 400000
     out = []
     for k in range(n):
         cs = case_seed(seed, PID, k)
